@@ -86,10 +86,9 @@ func c07Scenario(nWriters int) *scenario {
 	t0 := time.Date(2021, 3, 1, 10, 0, 0, 0, time.UTC)
 	return &scenario{
 		name: fmt.Sprintf("SyncWAL + %d writers to one bucket + WAL timer", nWriters),
-		cfg: func(s *vrt.Sched) {
-			s.TimerBudget[tickWALd] = 1
-		},
+		cfg: nil,
 		body: func(x *execCtx) {
+			vrt.Branching(false) // setup (startup, pre-population) runs on the default schedule only
 			w, obs := world.Start(world.Config{BackgroundSync: true})
 			if !obs.OK() {
 				x.failed = "startup: " + obs.String()
@@ -103,6 +102,8 @@ func c07Scenario(nWriters int) *scenario {
 				return
 			}
 			vrt.Quiesce()
+			vrt.Branching(true)
+			vrt.AllowTimer(tickWALd, 1) // the WAL flush timer may fire early once during the concurrent part
 			var ths []*vrt.Thread
 			for i := 1; i <= nWriters; i++ {
 				i := i
@@ -167,13 +168,16 @@ func init() {
 		ID:    "C07",
 		Level: "model_checking",
 		Rule: "threads: the real SyncWAL loop + 2 writers (second scenario: 3) each issuing one write request to the same bucket + the 500 ms WAL timer (<=1 fire); scheduling points at every channel/lock/device operation and access to package-level variables; " +
-			"ALL interleavings with at most 2 deviations (thorough: 3 for two writers) from the default schedule, explored depth-first on the real code; in the very step in which a request returns, the durable view of the WAL (contents as of its last fsync) and an all-time query are inspected. " +
+			"ALL interleavings with at most 2 deviations for two writers (thorough: 3) and 1 deviation for three writers (thorough: 2) from the default schedule, explored depth-first on the real code; in the very step in which a request returns, the durable view of the WAL (contents as of its last fsync) and an all-time query are inspected. " +
 			"non-trivial = schedules with >=1 deviation; states = distinct (final device image, observations)",
 		Assume:   []string{"cooperative scheduler: memory-model effects are not modelled", "choice points only at operations on objects accessed by >=2 threads with a writer (conflict set iterated to a fixpoint per subtree) and at all channel/lock operations", "UTC"},
 		QuickMax: 8 * time.Minute, ThorMax: 40 * time.Minute,
-	}, schedEnum(c07Scens, func(c *mc.Ctx) int {
-		if c.Thorough() {
+	}, schedEnum(c07Scens, func(c *mc.Ctx, si int) int {
+		switch {
+		case c.Thorough() && si == 0:
 			return 3
+		case !c.Thorough() && si == 1:
+			return 1 // three writers: one deviation in the quick tier
 		}
 		return 2
 	}), schedRun(c07Scens, "C07"))
